@@ -1,6 +1,7 @@
 import LassoProofs.Lemmas.Views
 import LassoModel.Extracted
 import LassoProofs.C02
+import LassoProofs.Lemmas.Config
 /-
   C06 — reader and resolver views preserve every association of their source.
 
@@ -101,5 +102,43 @@ theorem conversion_bodies_move_fields :
     Extracted.rodeoIntoResolverBody = .moves (.resolverNew [.strings, .arena]) ∧
     Extracted.readerIntoResolverBody = .moves (.resolverNew [.strings, .arena]) := by
   decide
+
+/-! ### Concurrent readers of a view
+
+"Any number of threads may query a view at once and all get the same answers."  In the model a view is an
+immutable value and every query a function of it.  On the source side this rests on three regenerated facts,
+decided here: no method of `RodeoReader` / `RodeoResolver` (inherent or through the traits) takes `&mut self`;
+apart from the consuming conversions none of them touches the arena - the only field that can hold interior
+mutability (the lock-free arena's atomics, when the view came from the concurrent interner) - and every field
+they do touch (`map`, `hasher`, `strings`) has a type without atomics, locks or cells; and the views are `Sync`
+only under the bounds C19 proves.  A query is then a read of plain data through a shared reference. -/
+def plainTy : Nat → Source.TyE → Bool
+  | 0, _ => false
+  | _ + 1, .param _ => true
+  | n + 1, .ref t => plainTy n t
+  | n + 1, .array t => plainTy n t
+  | n + 1, .app c args =>
+    (match c with
+      | .atomicUsize | .atomicPtr | .dashMap | .lockfreeArena | .atomicBucket | .atomicBucketList | .other _ => false
+      | _ => true) && args.all (plainTy n)
+
+theorem view_queries_are_pure_reads :
+    (Extracted.viewMethods.all fun m =>
+      !m.unknownField && m.recv != .refMut &&
+        (m.recv == .val || m.recv == .boxSelf || m.recv == .none || !(m.fields.contains .arena))) = true ∧
+    (Extracted.viewMethods.any fun m => m.name == "get" && m.recv == .ref) = true ∧
+    ((Extracted.structDefs.filter fun d => d.name == .reader || d.name == .resolver).all fun d =>
+      d.fields.all fun t => (match t with
+        | .app .anyArena _ => true      -- the arena: never touched by a query (first clause)
+        | t => plainTy 6 t)) = true ∧
+    ((Extracted.structDefs.filter fun d => d.name == .reader || d.name == .resolver).length = 2) := by
+  decide
+
+/-- The code this file's theorems are about is the same under every feature configuration: the regenerated
+census of conditional compilation contains import blocks, whole serde impls, optional-dependency impls and
+module declarations only, and no gate inside any function body (`Lemmas/Config.lean`). -/
+theorem same_code_under_every_feature_configuration :
+    (Extracted.cfgGates.all fun g => g.kind != .other) = true ∧ Extracted.bodyGates.isEmpty = true :=
+  Lasso.one_code_base_for_all_configurations
 
 end Lasso.C06
